@@ -739,11 +739,31 @@ func refineSets(v ssa.Value, universe intSet) map[*ssa.BasicBlock]intSet {
 		eql bool
 	}
 	cmps := map[ssa.Value]cmp{}
-	if refs := v.Referrers(); refs != nil {
+	// v and its value-preserving conversions (gen.MetaState(old), int32(state)) are one abstract value
+	aliases := []ssa.Value{v}
+	for i := 0; i < len(aliases) && i < 8; i++ {
+		if refs := aliases[i].Referrers(); refs != nil {
+			for _, r := range *refs {
+				switch c := r.(type) {
+				case *ssa.Convert:
+					if isIntegerType(c.Type()) && isIntegerType(c.X.Type()) && intWidth(c.Type()) >= intWidth(c.X.Type()) {
+						aliases = append(aliases, c)
+					}
+				case *ssa.ChangeType:
+					aliases = append(aliases, c)
+				}
+			}
+		}
+	}
+	for _, av := range aliases {
+		refs := av.Referrers()
+		if refs == nil {
+			continue
+		}
 		for _, r := range *refs {
 			if b, ok := r.(*ssa.BinOp); ok && (b.Op == token.EQL || b.Op == token.NEQ) {
 				var o ssa.Value
-				if b.X == v {
+				if b.X == av {
 					o = b.Y
 				} else {
 					o = b.X
@@ -1201,3 +1221,25 @@ func maybeNilResult(ret *ssa.Return, idx int) bool {
 	return true
 }
 
+
+func isIntegerType(t types.Type) bool {
+	b, ok := t.Underlying().(*types.Basic)
+	return ok && b.Info()&types.IsInteger != 0
+}
+
+// intWidth: bits of an integer type (int/uint/uintptr counted as 64).
+func intWidth(t types.Type) int {
+	b, ok := t.Underlying().(*types.Basic)
+	if !ok {
+		return 0
+	}
+	switch b.Kind() {
+	case types.Int8, types.Uint8:
+		return 8
+	case types.Int16, types.Uint16:
+		return 16
+	case types.Int32, types.Uint32:
+		return 32
+	}
+	return 64
+}
